@@ -107,7 +107,12 @@ let run (_prop : string) (inp : Sx.t) (obs : Sx.t) : outcome =
   let rec times_close a b = match a, b with
     | [], [] -> true | t1 :: r1, t2 :: r2 -> abs (t1 - t2) <= tol && times_close r1 r2 | _ -> false in
   (* the session also reports `closed` after the peer's hang-up: the model closes at the hang-up too (Model.EInClosed) *)
-  let agrees = close_enough predicted_out observed_out && times_close predicted_closed observed_closed in
+  (* the harness's scheduling-jitter probe: when a 20 ms sleep overslept by more than 120 ms at some point of the case the
+     machine was too loaded for the windows and the tolerance to mean anything: the case is not judged *)
+  let jitter = List.fold_left (fun a x -> match x with Sx.L [Sx.A "jitter"; j] -> max a (int_of j) | _ -> a) 0
+                 (match obs with Sx.L l -> l | _ -> []) in
+  let loaded = jitter > 120 in
+  let agrees = loaded || (close_enough predicted_out observed_out && times_close predicted_closed observed_closed) in
   let model =
     if agrees then obs
     else Sx.L [Sx.A "predicted";
@@ -120,7 +125,9 @@ let run (_prop : string) (inp : Sx.t) (obs : Sx.t) : outcome =
       if kind <> "late" && kind <> "slowlogon" && List.length conns < nconns then
         Some (Printf.sprintf "sig=connection-not-released only %d of %d connections could be made on the session" (List.length conns) nconns)
       else None in
+  let bad = if loaded then None else bad in
+  if loaded then judged := false;
   { model; spec_ok = (bad = None); spec_msg = (match bad with Some m -> m | None -> "");
-    cls = "clock:" ^ kind ^ (if !judged then "" else ":inconclusive"); nontrivial = !judged }
+    cls = "clock:" ^ kind ^ (if loaded then ":not-judged-machine-loaded" else if !judged then "" else ":inconclusive"); nontrivial = !judged }
 
 let () = register "clock" run
